@@ -215,7 +215,9 @@ def build_configs(cfgs):
 def build_monitor():
     srcs = sorted(glob.glob(os.path.join(HARNESS, 'monitor', '*.cc')))
     hdrs = sorted(glob.glob(os.path.join(HARNESS, 'monitor', '*.h')))
-    key = file_hash(srcs + hdrs)
+    msan = os.environ.get('VERIF_MONITOR_SAN', '')   # debugging aid for the monitor itself: address | thread
+    san = [f'-fsanitize={msan}', '-fno-omit-frame-pointer'] if msan in ('address', 'thread') else []
+    key = file_hash(srcs + hdrs) + (f'-{msan}' if san else '')
     d = os.path.join(CACHE, 'monitor', key)
     exe = os.path.join(d, 'monitor')
     if os.path.exists(exe):
@@ -225,13 +227,13 @@ def build_monitor():
 
     def comp(s):
         o = os.path.join(d, os.path.basename(s)[:-3] + '.o')
-        r = run(['g++', '-std=c++17', '-O2', '-g', '-Wall', '-Wextra', '-Wno-unused-parameter', '-c', s, '-o', o])
+        r = run(['g++', '-std=c++17', '-O2', '-g', '-Wall', '-Wextra', '-Wno-unused-parameter'] + san + ['-c', s, '-o', o])
         if r.returncode != 0:
             raise Inconclusive('monitor build failed: ' + s + '\n' + r.stderr[-4000:])
         return o
     with ThreadPoolExecutor(NCPU) as ex:
         objs = list(ex.map(comp, srcs))
-    r = run(['g++', '-O2', '-g', '-rdynamic'] + objs + ['-o', exe + '.tmp', '-ldl', '-lpthread', '-lquadmath'])
+    r = run(['g++', '-O2', '-g', '-rdynamic'] + san + objs + ['-o', exe + '.tmp', '-ldl', '-lpthread', '-lquadmath'])
     if r.returncode != 0:
         raise Inconclusive('monitor link failed\n' + r.stderr[-4000:])
     os.replace(exe + '.tmp', exe)
